@@ -254,7 +254,7 @@ Proof.
   replace (p + l - p) with l in L2 by lia. rewrite <- L3.
   rewrite BE, EQ in ND. destruct (disj3 _ _ _ ND) as (N1 & N2 & N3 & D12 & D13 & D23).
   (* finalise [p, p+l) *)
-  destruct (fini_loop_spec sz (bsize b) p Hs E2' (S (length E2' * sz)) 0 (map STok E1') (map STok E3' ++ J) c m)
+  destruct (fini_loop_spec (ehf e) sz (bsize b) p Hs E2' (S (length E2' * sz)) 0 (map STok E1') (map STok E3' ++ J) c m)
     as (c1 & m1 & FL & S1 & SC).
   { rewrite map_length. lia. }
   { rewrite US in ULE. assert (length EL = p + l + length E3') by (rewrite EQ, !app_length; lia). nia. }
@@ -266,7 +266,7 @@ Proof.
   replace off with (p * sz) by lia. simpl Nat.mul in FL. simpl Nat.add in FL.
   replace len' with (l * sz) by lia. rewrite <- L2. rewrite FL. cbn [bind].
   (* move the tail *)
-  set (sl1 := map STok E1' ++ map SDead E2' ++ map STok E3' ++ J).
+  set (sl1 := map STok E1' ++ map (dead (ehf e)) E2' ++ map STok E3' ++ J).
   assert (LSL : length sl1 = p + l + length E3' + length J).
   { unfold sl1. rewrite !app_length, !map_length. lia. }
   assert (LENEL : length EL = p + l + length E3') by (rewrite EQ, !app_length; lia).
@@ -308,16 +308,16 @@ Proof.
   - rewrite <- BE. assumption.
 Qed.
 
-Lemma fini_range sz bsz ts fuel i P Q c m :
+Lemma fini_range hf sz bsz ts fuel i P Q c m :
   0 < sz -> length P = i -> (i + length ts) * sz <= bsz -> length ts <= fuel ->
   mon_ok c m -> NoDup ts -> incl ts (mlive m) ->
   exists c' m',
-    fini_loop fuel sz bsz 0 (i * sz) ((i + length ts) * sz) (P ++ map STok ts ++ Q) c
-    = Ok (P ++ map SDead ts ++ Q, c')
+    fini_loop hf fuel sz bsz 0 (i * sz) ((i + length ts) * sz) (P ++ map STok ts ++ Q) c
+    = Ok (P ++ map (dead hf) ts ++ Q, c')
     /\ mon_step c m c' m' ts [] /\ cscript c' = cscript c.
 Proof.
   intros Hs HP Hb Hf Hm ND IN.
-  exact (fini_loop_spec sz bsz 0 Hs ts fuel i P Q c m HP Hb Hf Hm ND IN).
+  exact (fini_loop_spec hf sz bsz 0 Hs ts fuel i P Q c m HP Hb Hf Hm ND IN).
 Qed.
 
 Definition local_total (e : env) (f : buf -> ctx -> res (buf * ctx * out)) : Prop :=
@@ -352,7 +352,7 @@ Proof.
   assert (E3' = []) by (destruct E3'; [reflexivity|simpl in L3; lia]). subst E3'.
   rewrite app_nil_r in EQ.
   rewrite EQ in NDE. apply NoDup_app_parts in NDE. destruct NDE as (N1 & N2 & D12).
-  destruct (fini_range sz (bsize b) E2' (S ((n1 + length E2') * sz)) n1 (map STok E1') J c m) as (c1 & m1 & FL & S1 & SC);
+  destruct (fini_range (ehf e) sz (bsize b) E2' (S ((n1 + length E2') * sz)) n1 (map STok E1') J c m) as (c1 & m1 & FL & S1 & SC);
     try assumption.
   { rewrite map_length. assumption. }
   { rewrite EQ, app_length in ULE. nia. }
@@ -398,14 +398,14 @@ Proof.
   assert (E3' = []) by (destruct E3'; [reflexivity|simpl in L3; lia]). subst E3'.
   rewrite app_nil_r in EQ.
   rewrite EQ in NDE. apply NoDup_app_parts in NDE. destruct NDE as (N1 & N2 & D12).
-  destruct (fini_range sz (bsize b) E1' (S (l * sz)) 0 [] (map STok E2' ++ J) c m)
+  destruct (fini_range (ehf e) sz (bsize b) E1' (S (l * sz)) 0 [] (map STok E2' ++ J) c m)
     as (c1 & m1 & FL & S1 & SC); try assumption; try reflexivity.
   { rewrite EQ, app_length in ULE. nia. }
   { nia. }
   { intros x Hx. apply INE. rewrite EQ, in_app_iff. tauto. }
   rewrite SL, EQ, map_app, <- app_assoc.
   rewrite A1. cbn [Nat.mul Nat.add app] in FL. rewrite L1 in FL. rewrite FL. cbn [bind].
-  set (sl1 := map SDead E1' ++ map STok E2' ++ J).
+  set (sl1 := map (dead (ehf e)) E1' ++ map STok E2' ++ J).
   assert (LSL : length sl1 = length EL + length J).
   { unfold sl1. rewrite EQ, !app_length, !map_length. lia. }
   replace (bused b - l * sz) with (length E2' * sz) by (rewrite US, EQ, app_length; nia).
@@ -433,8 +433,8 @@ Qed.
 
 (* ---------------------------------------------------------------- buffer::append + construct *)
 
-Lemma gap_loop_done fuel sz bsz off lim sl c :
-  lim <= off -> gap_loop fuel sz bsz off lim sl c = Ok (sl, c, off, true).
+Lemma gap_loop_done hi fuel sz bsz off lim sl c :
+  lim <= off -> gap_loop hi fuel sz bsz off lim sl c = Ok (sl, c, off, true).
 Proof.
   intros H. destruct fuel; simpl; replace (off <? lim) with false by (symmetry; apply Nat.ltb_ge; lia);
     reflexivity.
@@ -515,7 +515,7 @@ Lemma insert_gap e b c m k EL J p l :
   NoDup EL -> incl EL (mlive m) ->
   length EL <= p -> (p + l) * esz e k <= bsize b ->
   exists kk c1 m1 sl2 reached ok J1,
-    gap_loop (S (p * esz e k)) (esz e k) (bsize b) (length EL * esz e k) (p * esz e k) (map STok EL ++ J) c
+    gap_loop (ehi e) (S (p * esz e k)) (esz e k) (bsize b) (length EL * esz e k) (p * esz e k) (map STok EL ++ J) c
     = Ok (sl2, c1, reached, ok)
     /\ sl2 = map STok (EL ++ seq (cnext c) kk) ++ J1
     /\ length (EL ++ seq (cnext c) kk) + length J1 = bsize b / esz e k
@@ -530,7 +530,7 @@ Proof.
   pose proof (esz_pos e k EO) as Hs. set (sz := esz e k) in *.
   assert (PJ : p - length EL <= length J).
   { assert (p + l <= bsize b / sz) by (apply mul_le_div; assumption). lia. }
-  destruct (gap_loop_spec sz (bsize b) Hs (firstn (p - length EL) J) (S (p * sz)) (length EL)
+  destruct (gap_loop_spec (ehi e) sz (bsize b) Hs (firstn (p - length EL) J) (S (p * sz)) (length EL)
               (map STok EL) (skipn (p - length EL) J) c m) as (kk & c1 & m1 & ok & GL & K1 & K2 & K3 & S1).
   { apply map_length. }
   { rewrite firstn_length, Nat.min_l by assumption. nia. }
